@@ -811,8 +811,10 @@ static int ec_substitute(char *loc, char *cmd, char *arg, char *txt)
 		return 1;
 	for (i = beg; i < end; i++) {
 		char *ln = lbuf_get(xb, i);
+		char *ln0 = ln;
 		struct sbuf *r = NULL;
-		while (rstr_find(re, ln, LEN(offs) / 2, offs, 0) >= 0) {
+		while (rstr_find(re, ln, LEN(offs) / 2, offs,
+				ln > ln0 ? RE_NOTBOL : 0) >= 0) {
 			if (!r)
 				r = sbuf_make();
 			sbuf_mem(r, ln, offs[0]);
